@@ -41,17 +41,32 @@ static std::string expected_body(const ReqSpec& q)
     return "";
 }
 
+// asyncReply: the handler hands the response writer to a thread of its own, which answers later (a handler that
+// completes asynchronously); the thread is captured by the gate and scheduled like the framework's threads
+static bool gAsyncReply = false;
+static std::vector<std::thread> gResponders[NG_MAX_ACTORS]; // one list per creating thread (no lock: no extra ordering)
+static void reply(Http::ResponseWriter& w, const std::string& body)
+{
+    if (!gAsyncReply)
+    {
+        w.send(Http::Code::Ok, body);
+        return;
+    }
+    auto shared = std::make_shared<Http::ResponseWriter>(std::move(w));
+    gResponders[ng_self() < 0 ? 0 : ng_self()].emplace_back([shared, body]() { shared->send(Http::Code::Ok, body); });
+}
+
 static std::shared_ptr<Rest::Router> make_router()
 {
     auto router = std::make_shared<Rest::Router>();
     Rest::Routes::Get(*router, "/g/:tag", [](const Rest::Request& req, Http::ResponseWriter w) {
         if (gSelfTestRace)
             ++gRacyCounter; // (self-test) second site of the deliberate race, reached through a different Route object
-        w.send(Http::Code::Ok, "get:" + req.param(":tag").as<std::string>());
+        reply(w, "get:" + req.param(":tag").as<std::string>());
         return Rest::Route::Result::Ok;
     });
     Rest::Routes::Post(*router, "/p/:tag", [](const Rest::Request& req, Http::ResponseWriter w) {
-        w.send(Http::Code::Ok, "post:" + req.param(":tag").as<std::string>() + ":" + req.body());
+        reply(w, "post:" + req.param(":tag").as<std::string>() + ":" + req.body());
         return Rest::Route::Result::Ok;
     });
     Rest::Routes::Put(*router, "/u/:tag", [](const Rest::Request& req, Http::ResponseWriter w) {
@@ -61,11 +76,11 @@ static std::shared_ptr<Rest::Router> make_router()
             if (getenv("C09_DEBUG"))
                 fprintf(stderr, "racy++ by actor %d -> %d\n", ng_self(), gRacyCounter);
         } // deliberate unsynchronised access from two workers: the TSan pass must see it
-        w.send(Http::Code::Ok, "put:" + req.param(":tag").as<std::string>());
+        reply(w, "put:" + req.param(":tag").as<std::string>());
         return Rest::Route::Result::Ok;
     });
     Rest::Routes::Get(*router, "/u/:tag", [](const Rest::Request& req, Http::ResponseWriter w) {
-        w.send(Http::Code::Ok, "getu:" + req.param(":tag").as<std::string>());
+        reply(w, "getu:" + req.param(":tag").as<std::string>());
         return Rest::Route::Result::Ok;
     });
     return router;
@@ -112,6 +127,11 @@ static Exec run_one(const std::vector<uint8_t>& prefix, int shutdownAt, vr::Ctx&
         for (int a = 0; a < 1 + W; ++a)
             ng_set_fine(a, 1);
     sim::S().accept_failures = gAcceptFaults;
+    if (gAsyncReply)
+    {
+        sim::TsanIgnore ign;
+        sim::S().park_threads_at_start = true; // threads created from now on (the handlers' own) wait to be scheduled
+    }
     std::vector<ClientState> cl(C);
     std::string trace;
     auto detail = [&](const std::string& extra) {
@@ -142,7 +162,7 @@ static Exec run_one(const std::vector<uint8_t>& prefix, int shutdownAt, vr::Ctx&
             collect(c);
         // enabled actors in canonical order: loops first (acceptor, workers), then clients
         std::vector<int> en;
-        for (int a = 0; a < 1 + W; ++a)
+        for (int a = 0; a < ng_count(); ++a) // acceptor, workers, and (asyncReply) the handlers' own threads
             if (sim::actor_ready(a))
                 en.push_back(a);
         for (int j = 0; j < C; ++j)
@@ -172,7 +192,7 @@ static Exec run_one(const std::vector<uint8_t>& prefix, int shutdownAt, vr::Ctx&
         x.choices.push_back((uint8_t)choice);
         x.nEnabled.push_back((uint8_t)en.size());
         int act = en[choice];
-        trace += (act >= 100 ? "c" + std::to_string(act - 100) : act == 0 ? std::string("A") : "w" + std::to_string(act)) + " ";
+        trace += (act >= 100 ? "c" + std::to_string(act - 100) : act == 0 ? std::string("A") : act <= W ? "w" + std::to_string(act) : "t" + std::to_string(act)) + " ";
         if (act < 100)
         {
             sim::step_actor(act);
@@ -263,7 +283,15 @@ static Exec run_one(const std::vector<uint8_t>& prefix, int shutdownAt, vr::Ctx&
         sim::await_readiness(20);
         steps += sim::settle();
     }
-    if (!srv.stop())
+    bool stopped = srv.stop();
+    for (auto& list : gResponders)
+    {
+        for (auto& t : list)
+            if (t.joinable())
+                t.join();
+        list.clear();
+    }
+    if (!stopped)
     {
         ctx.violation(std::string("c09:threads-did-not-terminate-after-shutdown") + (shutDown ? ":mid-load" : ":idle"), detail("\"shutdown_at_point\":" + std::to_string(shutdownAt)));
         x.ok = false;
@@ -288,6 +316,7 @@ struct Case
     bool fine        = false;
     int acceptFaults = 0;
     bool gatedStart  = false;
+    bool asyncReply  = false;
 };
 static void run_one_noreport(const std::vector<uint8_t>& prefix, vr::Ctx& ctx, uint64_t& steps)
 {
@@ -308,7 +337,8 @@ static void build_scripts()
         {
             std::string tag = std::string(tags[(j * 2 + k) % 6]) + std::to_string(j) + std::to_string(k);
             // both method tables that do not exist (DELETE, PATCH) are hit, from different connections
-            switch (gSelfTestRace ? (j % 2 ? 0 : 4) : (2 * j + 3 * k + 1) % 5)
+            // (asyncReply: only requests that reach a handler; otherwise the mix includes the two absent method tables)
+            switch (gSelfTestRace ? (j % 2 ? 0 : 4) : gAsyncReply ? 2 * ((j + k) % 3) : (2 * j + 3 * k + 1) % 5)
             {
             case 0:
                 s.push_back({ "GET", "/g/" + tag, "" });
@@ -397,8 +427,9 @@ static void run_case(uint64_t idx, vr::Ctx& ctx)
     gFine        = c.fine;
     gAcceptFaults = c.acceptFaults;
     gGatedStart   = c.gatedStart;
+    gAsyncReply   = c.asyncReply;
     build_scripts();
-    std::string label = std::string(c.gatedStart ? "[start-up: threads begin when scheduled] " : "") + std::string(c.fine ? "[threads also yield before every lock] " : "") + (c.acceptFaults ? "[first " + std::to_string(c.acceptFaults) + " accepts fail with EMFILE] " : std::string()) + "w=" + std::to_string(W) + " c=" + std::to_string(C) + " r=" + std::to_string(R) + " D<=" + std::to_string(D) + (c.shutdowns ? " +shutdown-at-every-prefix" : "");
+    std::string label = std::string(c.asyncReply ? "[handlers answer from threads of their own] " : "") + std::string(c.gatedStart ? "[start-up: threads begin when scheduled] " : "") + std::string(c.fine ? "[threads also yield before every lock] " : "") + (c.acceptFaults ? "[first " + std::to_string(c.acceptFaults) + " accepts fail with EMFILE] " : std::string()) + "w=" + std::to_string(W) + " c=" + std::to_string(C) + " r=" + std::to_string(R) + " D<=" + std::to_string(D) + (c.shutdowns ? " +shutdown-at-every-prefix" : "");
     ctx.note(label);
     uint64_t steps = 0, execs = 0, shutdownExecs = 0;
     std::vector<std::vector<uint8_t>> stack;
@@ -477,6 +508,9 @@ int main(int argc, char** argv)
     // start-up: acceptor and workers begin only when scheduled; a client may connect and shutdown() may come before a
     // worker has entered its loop
     gCases.push_back({ 2, 1, 1, 1, true, false, 0, true });
+    // handlers that answer from another thread (asynchronous completion), also with shutdown at every point
+    gCases.push_back({ 2, 2, 1, 1, false, false, 0, false, true });
+    gCases.push_back({ 1, 2, 1, 0, true, false, 0, false, true });
     gCases.push_back({ 2, 2, 2, 0, true });
     gCases.push_back({ 3, 3, 1, 0, true });
     if (thorough)
